@@ -1723,11 +1723,19 @@ class Component(System):
         """
         subjacs_info = self._subjacs_info
         wrtset = set()
-        subjac_keys = self._get_approx_subjac_keys(use_relevance=use_relevance, initialize=True)
+
+        # A scheme that ended up empty under an earlier relevance was removed below, so take the
+        # methods from the declared partials, not only from the schemes that are left.
         methods = list(self._approx_schemes)
+        for meta in subjacs_info.values():
+            method = meta.get('method')
+            if method not in methods and _supported_methods.get(method) is not None:
+                methods.append(method)
         self._approx_schemes = {}
         for method in methods:
             self._get_approx_scheme(method)
+
+        subjac_keys = self._get_approx_subjac_keys(use_relevance=use_relevance, initialize=True)
 
         # go through subjac keys in reverse and only add approx for the last of each wrt
         # (this prevents warnings that could confuse users)
